@@ -22,7 +22,7 @@ type boardModel struct {
 	lost, epTarget, epCapture, rookMove, safeSquares      *ssa.Function
 
 	moveT    *types.Named
-	resultT  types.Type // the game-result type: the type of Board.Result()
+	resultT  types.Type     // the game-result type: the type of Board.Result()
 	moveIdx  map[string]int // field name -> index
 	kinds    map[string]int64
 	kindName map[int64]string
